@@ -271,8 +271,12 @@ class BayesianProblem(object):
             # If Ce and Cx are scalar, make them into matrices
             if np.size(Ce)==1:
                 Ce = Ce.ravel()[0]*np.eye(self.model.range_dim)
+            elif np.ndim(Ce)==1: # vector of variances
+                Ce = np.diag(Ce)
             if np.size(Cx)==1:
                 Cx = Cx.ravel()[0]*np.eye(self.model.domain_dim)
+            elif np.ndim(Cx)==1: # vector of variances
+                Cx = np.diag(Cx)
 
             #Basic MAP estimate using closed-form expression Tarantola 2005 (3.37-3.38)
             rhs = b-A@x0
@@ -537,8 +541,12 @@ class BayesianProblem(object):
         # If Ce and Cx are scalar, make them into matrices
         if np.size(Ce)==1:
             Ce = Ce.ravel()[0]*np.eye(self.model.range_dim)
+        elif np.ndim(Ce)==1: # vector of variances
+            Ce = np.diag(Ce)
         if np.size(Cx)==1:
             Cx = Cx.ravel()[0]*np.eye(self.model.domain_dim)
+        elif np.ndim(Cx)==1: # vector of variances
+            Cx = np.diag(Cx)
 
         # Preallocate samples
         n = self.prior.dim 
